@@ -135,6 +135,8 @@ func runC09(p *eng.Prog, r *eng.Report, tier string) {
 	nCb := handlerCallbacksChecked(c, "C09.16")
 	c.r.Floor("C09.16", "callback fields called by handlers", nCb, 5)
 	// C09.15 a value used although the call that produced it may have failed
+	nilReaderSinks(c, "C09.19")
+	serveLockWait(c, "C09.20")
 	nTol := valueUsedAfterError(c, "C09.15", c.allFns())
 	r.Note("C09.15: %d error-tolerant uses of a (value, error) result examined", nTol)
 	c06JoinCtx(c)
